@@ -677,3 +677,65 @@ Proof.
   rewrite (wl_loop_ok fuel d lb bln lbs lines br bo kind dir fuel Hsm Hf Hd mf m r o fuel res MM Hr Ho Hp Hmf ltac:(lia) Hres).
   destruct res as [[s r'] o']. reflexivity.
 Qed.
+
+Lemma wordlast_loop_pos_ok lines kind dir : lines_small lines -> Forall nonul lines -> dir_ok dir ->
+  forall mf r o s r' o', pos_ok r o -> wordlast_loop mf (map chop lines) kind dir r o = Some (s, r', o') -> pos_ok r' o'.
+Proof.
+  intros Hsm Hn Hd. induction mf as [|mf IH]; intros r o s r' o' Hp H; [discriminate|]. cbn [wordlast_loop] in H.
+  destruct (kmatch (map chop lines) kind r o).
+  - destruct (lbuf_next (map chop lines) dir r o) as [[s1 r1] o1] eqn:En.
+    pose proof (lbuf_next_pos_ok lines dir r o _ _ _ Hsm Hn Hd Hp En) as Hp1.
+    destruct s1; [injection H as <- <- <-; exact Hp1|]. apply (IH _ _ _ _ _ Hp1 H).
+  - destruct (lbuf_next (map chop lines) (- dir) r o) as [[s1 r1] o1] eqn:En. injection H as <- <- <-.
+    apply (lbuf_next_pos_ok lines (- dir) r o s1 r1 o1 Hsm Hn); [destruct Hd as [-> | ->]; [right|left]; reflexivity|exact Hp|exact En].
+Qed.
+Lemma wordlast_pos_ok lines kind dir mf r o s r' o' : lines_small lines -> Forall nonul lines -> dir_ok dir -> pos_ok r o ->
+  lbuf_wordlast mf (map chop lines) kind dir r o = Some (s, r', o') -> pos_ok r' o'.
+Proof.
+  intros Hsm Hn Hd Hp H. unfold lbuf_wordlast in H.
+  destruct ((kind =? 0)%N || negb (kmatch (map chop lines) kind r o)); [injection H as <- <- <-; exact Hp|].
+  apply (wordlast_loop_pos_ok lines kind dir Hsm Hn Hd mf r o s r' o' Hp H).
+Qed.
+
+(* ------------------------------------------------------------------ lbuf_wordbeg *)
+Definition wb_loop : stmt := match fn_body cf_lbuf_wordbeg with SSeq _ (SSeq _ (SSeq _ (SSeq w _))) => w | _ => SSkip end.
+Definition wb_rest : stmt := match fn_body cf_lbuf_wordbeg with SSeq _ (SSeq _ (SSeq _ (SSeq _ r))) => r | _ => SSkip end.
+
+Lemma wb_loop_ok F d lb bln lbs lines br bo bigz dir fuel2 : lines_small lines -> lines_nl_ok lines -> (maxlen lines < F)%nat -> dir_ok dir ->
+  forall mf m r o nl fuel res, mot_mem m lb bln lbs lines br bo -> cell_at m br r -> cell_at m bo o -> pos_ok r o ->
+  (mf < fuel)%nat -> (0 < fuel2)%nat -> 0 <= nl <= 1 ->
+  wordbeg_loop mf (map chop lines) dir nl r o = Some res ->
+  exists st',
+  match exec (callf cprog F (S (S (S (S (S d)))))) fuel wb_loop
+             (mkst [VPtr lb 0; VInt bigz; VInt dir; VPtr br 0; VPtr bo 0; VInt nl] m) with
+  | ONormal st1 => exec (callf cprog F (S (S (S (S (S d)))))) fuel2 wb_rest st1
+  | o => o
+  end = OReturn (st_val1 (fst (fst res))) st' /\ memm st' = set_pos m br bo (snd (fst res)) (snd res).
+Proof.
+  intros Hsm Hok HF Hd. set (b := map chop lines).
+  induction mf as [|mf IH]; intros m r o nl fuel res MM Hr Ho Hp Hf Hf2 Hnl Hres; [discriminate|].
+  destruct fuel as [|fuel]; [lia|]. destruct fuel2 as [|fuel2']; [lia|].
+  pose proof MM as [R Hl Hne Nr No Lr Lo]. pose proof Hp as [Pr Po].
+  cbn [wordbeg_loop] in Hres. fold b in Hres.
+  unfold wb_loop, wb_rest; cbn [fn_body cf_lbuf_wordbeg]. rewrite exec_while. xstep.
+  rd_chr R Hsm HF Hr Ho Pr Po (S d).
+  rewrite (isspace_at m lb bln lbs lines r o (S (S (S (S d)))) F R Hl). xstep. fold b.
+  destruct (uc_isspace (lchr b r o)); xstep.
+  2:{ injection Hres as <-. cbn [fst snd st_val1]. rewrite (set_pos_self m br bo r o Hr Ho). eexists; split; reflexivity. }
+  rd_chr R Hsm HF Hr Ho Pr Po (S d).
+  destruct (isnl_at m lb bln lbs lines r o (S (S (S (S d)))) F R Hl Hok) as (c & Hc & Hcn). rewrite Hc. xstep. fold b in Hcn. rewrite Hcn.
+  change (if is_nl (lchr b r o) then 1 else 0) with (b2z (is_nl (lchr b r o))) in Hres.
+  set (nl2 := nl + b2z (is_nl (lchr b r o))) in *.
+  assert (Hnl2 : 0 <= nl2 <= 2) by (unfold nl2; destruct (is_nl (lchr b r o)); cbn [b2z]; lia).
+  rewrite chk_I32 by lia. xstep.
+  destruct (Z.eqb_spec nl2 2) as [E2|E2]; xstep.
+  { injection Hres as <-. cbn [fst snd st_val1]. rewrite (set_pos_self m br bo r o Hr Ho). eexists; split; reflexivity. }
+  rewrite (next_call m lb bln lbs lines br bo r o dir (S d) F MM Hsm HF Hr Ho Hp Hd).
+  fold b. destruct (lbuf_next b dir r o) as [[s1 r1] o1] eqn:En. xstep.
+  destruct s1; cbn [st_val]; xstep.
+  - injection Hres as <-. cbn [fst snd st_val1]. eexists; split; reflexivity.
+  - destruct (mot_mem_set_pos m lb bln lbs lines br bo r1 o1 MM) as (MM1 & Hr1 & Ho1).
+    pose proof (lbuf_next_pos_ok lines dir r o _ _ _ Hsm (la_nonul _ _ _ _ _ R) Hd Hp En) as Hp1.
+    destruct (IH (set_pos m br bo r1 o1) r1 o1 nl2 fuel res MM1 Hr1 Ho1 Hp1 ltac:(lia) ltac:(lia) ltac:(lia) Hres) as (st' & E1 & E2').
+    exists st'. split; [exact E1|]. rewrite E2'. apply set_pos_set_pos; assumption.
+Qed.
